@@ -29,10 +29,10 @@ import (
 var fset = token.NewFileSet()
 
 type pkg struct {
-	files map[string]*ast.File
-	funcs map[string]*ast.FuncDecl
+	files  map[string]*ast.File
+	funcs  map[string]*ast.FuncDecl
 	consts map[string]int64
-	vars  map[string]ast.Expr // package-level var name -> initialiser
+	vars   map[string]ast.Expr // package-level var name -> initialiser
 }
 
 func loadPkg(dir string, includeTests bool) *pkg {
@@ -615,19 +615,19 @@ func canonBody(p *pkg, fd *ast.FuncDecl) string {
 // canonical bodies (canonBody) of the small shared helpers, with the equivalent formulations seen
 // so far; anything else makes the corresponding flag false
 var expectCanon = map[string][]string{
-	"mapStructDesc.Get": {"{v2:=v3.slots[v1&65535].Load()ifv2==nil{returnnil}forv4:=range*v2{if(*v2)[v4].abiType==v1{return(*v2)[v4].sd}}returnnil}", "{v2:=v3.slots[v1&65535].Load()ifv2==nil{returnnil}ifv4:=indexOfAbiType(*v2,v1);v4>=0{return(*v2)[v4].sd}returnnil}"},
-	"mapStructDesc.Set": {"{ifv3.Get(v1)==v2{return}v4:=v1&mapStructDescBucketsvarv5[]mapStructDescItemifv6:=v3.slots[v4].Load();v6!=nil{v5=*v6}v7:=make([]mapStructDescItem,len(v5),len(v5)+1)copy(v7,v5)forv8:=rangev7{ifv7[v8].abiType==v1{v7[v8].sd=v2v3.slots[v4].Store(&v7)return}}v7=append(v7,mapStructDescItem{v1:v1,v2:v2})v3.slots[v4].Store(&v7)}", "{ifv3.Get(v1)==v2{return}v4:=&v3.slots[v1&65535]varv5[]mapStructDescItemifv6:=v4.Load();v6!=nil{v5=*v6}v7:=make([]mapStructDescItem,len(v5),len(v5)+1)copy(v7,v5)ifv8:=indexOfAbiType(v7,v1);v8>=0{v7[v8].sd=v2}else{v7=append(v7,mapStructDescItem{v1:v1,v2:v2})}v4.Store(&v7)}"},
-	"indexOfAbiType": {"{forv3:=rangev1{ifv1[v3].abiType==v2{returnv3}}return-1}"},
-	"appendListHeader": {"{if*(*unsafe.Pointer)(v3)==nil{returnappend(v2,byte(v1.WT),0,0,0,0),0,nil}v4:=(*sliceHeader)(v3)v5:=uint32(v4.Len)returnappend(v2,byte(v1.WT),byte(v5>>24),byte(v5>>16),byte(v5>>8),byte(v5)),v5,v4.Data}"},
-	"appendMapHeader": {"{varv4uint32if*(*unsafe.Pointer)(v3)!=nil{v4=uint32(maplen(*(*unsafe.Pointer)(v3)))}returnappend(v2,byte(v1.K.WT),byte(v1.V.WT),byte(v4>>24),byte(v4>>16),byte(v4>>8),byte(v4)),v4}"},
-	"checkMapN": {"{ifv1==0{returnnil}returnerrors.New(\"mapsizechangedduringencoding\")}", "{ifv1!=0{returnerrors.New(\"mapsizechangedduringencoding\")}returnnil}"},
-	"appendMapBool": {"{ifv2{returnappend(v1,1)}returnappend(v1,0)}", "{varv3byteifv2{v3=1}returnappend(v1,v3)}"},
-	"appendUint16": {"{returnappend(v1,byte(v2>>8),byte(v2),)}"},
-	"appendUint32": {"{returnappend(v1,byte(v2>>24),byte(v2>>16),byte(v2>>8),byte(v2),)}"},
-	"appendUint64": {"{returnappend(v1,byte(v2>>56),byte(v2>>48),byte(v2>>40),byte(v2>>32),byte(v2>>24),byte(v2>>16),byte(v2>>8),byte(v2),)}"},
-	"registerMapAppendFunc": {"{mapAppendFuncs[struct{k,vttype}{v1:v1,v2:v2}]=v3}"},
+	"mapStructDesc.Get":      {"{v2:=v3.slots[v1&65535].Load()ifv2==nil{returnnil}forv4:=range*v2{if(*v2)[v4].abiType==v1{return(*v2)[v4].sd}}returnnil}", "{v2:=v3.slots[v1&65535].Load()ifv2==nil{returnnil}ifv4:=indexOfAbiType(*v2,v1);v4>=0{return(*v2)[v4].sd}returnnil}"},
+	"mapStructDesc.Set":      {"{ifv3.Get(v1)==v2{return}v4:=v1&mapStructDescBucketsvarv5[]mapStructDescItemifv6:=v3.slots[v4].Load();v6!=nil{v5=*v6}v7:=make([]mapStructDescItem,len(v5),len(v5)+1)copy(v7,v5)forv8:=rangev7{ifv7[v8].abiType==v1{v7[v8].sd=v2v3.slots[v4].Store(&v7)return}}v7=append(v7,mapStructDescItem{v1:v1,v2:v2})v3.slots[v4].Store(&v7)}", "{ifv3.Get(v1)==v2{return}v4:=&v3.slots[v1&65535]varv5[]mapStructDescItemifv6:=v4.Load();v6!=nil{v5=*v6}v7:=make([]mapStructDescItem,len(v5),len(v5)+1)copy(v7,v5)ifv8:=indexOfAbiType(v7,v1);v8>=0{v7[v8].sd=v2}else{v7=append(v7,mapStructDescItem{v1:v1,v2:v2})}v4.Store(&v7)}"},
+	"indexOfAbiType":         {"{forv3:=rangev1{ifv1[v3].abiType==v2{returnv3}}return-1}"},
+	"appendListHeader":       {"{if*(*unsafe.Pointer)(v3)==nil{returnappend(v2,byte(v1.WT),0,0,0,0),0,nil}v4:=(*sliceHeader)(v3)v5:=uint32(v4.Len)returnappend(v2,byte(v1.WT),byte(v5>>24),byte(v5>>16),byte(v5>>8),byte(v5)),v5,v4.Data}"},
+	"appendMapHeader":        {"{varv4uint32if*(*unsafe.Pointer)(v3)!=nil{v4=uint32(maplen(*(*unsafe.Pointer)(v3)))}returnappend(v2,byte(v1.K.WT),byte(v1.V.WT),byte(v4>>24),byte(v4>>16),byte(v4>>8),byte(v4)),v4}"},
+	"checkMapN":              {"{ifv1==0{returnnil}returnerrors.New(\"mapsizechangedduringencoding\")}", "{ifv1!=0{returnerrors.New(\"mapsizechangedduringencoding\")}returnnil}"},
+	"appendMapBool":          {"{ifv2{returnappend(v1,1)}returnappend(v1,0)}", "{varv3byteifv2{v3=1}returnappend(v1,v3)}"},
+	"appendUint16":           {"{returnappend(v1,byte(v2>>8),byte(v2),)}"},
+	"appendUint32":           {"{returnappend(v1,byte(v2>>24),byte(v2>>16),byte(v2>>8),byte(v2),)}"},
+	"appendUint64":           {"{returnappend(v1,byte(v2>>56),byte(v2>>48),byte(v2>>40),byte(v2>>32),byte(v2>>24),byte(v2>>16),byte(v2>>8),byte(v2),)}"},
+	"registerMapAppendFunc":  {"{mapAppendFuncs[struct{k,vttype}{v1:v1,v2:v2}]=v3}"},
 	"registerListAppendFunc": {"{listAppendFuncs[v1]=v2}"},
-	"updateListAppendFunc": {"{ifv1.T!=15&&v1.T!=14{panic(\"[bug]typemismatch,got:\"+ttype2str(v1.T))}v2,v3:=listAppendFuncs[v1.V.T]ifv3{v1.AppendFunc=v2return}v1.AppendFunc=appendListAny}", "{ifv1.T!=15&&v1.T!=14{panic(\"[bug]typemismatch,got:\"+ttype2str(v1.T))}ifv2,v3:=listAppendFuncs[v1.V.T];v3{v1.AppendFunc=v2}else{v1.AppendFunc=appendListAny}}"},
+	"updateListAppendFunc":   {"{ifv1.T!=15&&v1.T!=14{panic(\"[bug]typemismatch,got:\"+ttype2str(v1.T))}v2,v3:=listAppendFuncs[v1.V.T]ifv3{v1.AppendFunc=v2return}v1.AppendFunc=appendListAny}", "{ifv1.T!=15&&v1.T!=14{panic(\"[bug]typemismatch,got:\"+ttype2str(v1.T))}ifv2,v3:=listAppendFuncs[v1.V.T];v3{v1.AppendFunc=v2}else{v1.AppendFunc=appendListAny}}"},
 }
 
 func bodyIs(p *pkg, name string) bool {
@@ -645,11 +645,11 @@ func bodyIs(p *pkg, name string) bool {
 }
 
 var simpleCase = map[string]string{
-	"b=append(b,*(*byte)(p))":                           "WrByte",
-	"b=appendUint16(b,*((*uint16)(p)))":                 "WrU16",
-	"b=appendUint32(b,*((*uint32)(p)))":                 "WrU32",
-	"b=appendUint32(b,uint32(*((*int64)(p))))":          "WrEnum",
-	"b=appendUint64(b,*((*uint64)(p)))":                 "WrU64",
+	"b=append(b,*(*byte)(p))":                                            "WrByte",
+	"b=appendUint16(b,*((*uint16)(p)))":                                  "WrU16",
+	"b=appendUint32(b,*((*uint32)(p)))":                                  "WrU32",
+	"b=appendUint32(b,uint32(*((*int64)(p))))":                           "WrEnum",
+	"b=appendUint64(b,*((*uint64)(p)))":                                  "WrU64",
 	"s:=*((*string)(p))b=appendUint32(b,uint32(len(s)))b=append(b,s...)": "WrStr",
 }
 
@@ -756,8 +756,14 @@ func genTables(r *pkg) string {
 	b.WriteString("From Coq Require Import List NArith.\nFrom Frugal Require Import Routines.\nImport ListNotations.\nOpen Scope N_scope.\n\n")
 
 	// registrations, in source order over every init function of the package
-	type mrow struct{ k, v int64; f string }
-	type lrow struct{ k int64; f string }
+	type mrow struct {
+		k, v int64
+		f    string
+	}
+	type lrow struct {
+		k int64
+		f string
+	}
 	var mrows []mrow
 	var lrows []lrow
 	var fnames []string
@@ -778,9 +784,21 @@ func genTables(r *pkg) string {
 		}
 		return r.eval(e)
 	}
-	var visit func(n ast.Node, env map[string]int64)
-	visit = func(n ast.Node, env map[string]int64) {
+	// a registration under a condition, in a loop that is not unrolled, in a closure, or in an init
+	// function with a return/break/continue/goto is not the unconditional sequence the tables assume
+	var visit func(n ast.Node, env map[string]int64, cond bool)
+	regs, jumps := 0, 0
+	visit = func(n ast.Node, env map[string]int64, cond bool) {
 		ast.Inspect(n, func(x ast.Node) bool {
+			switch y := x.(type) {
+			case *ast.BranchStmt, *ast.ReturnStmt:
+				jumps++
+			case *ast.IfStmt, *ast.SwitchStmt, *ast.TypeSwitchStmt, *ast.SelectStmt, *ast.ForStmt, *ast.FuncLit, *ast.GoStmt, *ast.DeferStmt:
+				if !cond && x != n {
+					visit(y, env, true)
+					return false
+				}
+			}
 			if rs, ok := x.(*ast.RangeStmt); ok && rs.Tok == token.DEFINE && rs.Value != nil {
 				cl, okc := rs.X.(*ast.CompositeLit)
 				vid, okv := rs.Value.(*ast.Ident)
@@ -806,11 +824,15 @@ func genTables(r *pkg) string {
 							if kid.Name != "_" {
 								env2[kid.Name] = int64(i)
 							}
-							visit(rs.Body, env2)
+							visit(rs.Body, env2, cond)
 						}
 						return false
 					}
 				}
+			}
+			if rs, ok := x.(*ast.RangeStmt); ok && !cond && x != n {
+				visit(rs, env, true)
+				return false
 			}
 			ce, ok := x.(*ast.CallExpr)
 			if !ok {
@@ -819,6 +841,12 @@ func genTables(r *pkg) string {
 			id, ok := ce.Fun.(*ast.Ident)
 			if !ok {
 				return true
+			}
+			if id.Name == "registerMapAppendFunc" || id.Name == "registerListAppendFunc" {
+				regs++
+				if cond {
+					regOK = false
+				}
 			}
 			switch id.Name {
 			case "registerMapAppendFunc":
@@ -843,7 +871,11 @@ func genTables(r *pkg) string {
 		})
 	}
 	for _, n := range fnames {
-		visit(r.funcs[n].Body, map[string]int64{})
+		regs, jumps = 0, 0
+		visit(r.funcs[n].Body, map[string]int64{}, false)
+		if regs > 0 && jumps > 0 {
+			regOK = false
+		}
 	}
 	// later registrations overwrite earlier ones (Go map assignment): keep the last
 	mlast := map[[2]int64]string{}
